@@ -142,6 +142,23 @@ def main(run: Run):
     run.assumptions += BASE_ASSUMPTIONS_L2
     run.functions["amaranth_soc.wishbone.sram.WishboneSRAM.elaborate"] = "per-configuration (bounded: geometry/init), all inputs/states/time"
     run_configs(run, __name__, cfgs, must_accept=lambda cfg: cfg["size"] >= 2)     # the property quantifies over sizes 2..N
+    # L1: the statements the real elaborate() issues - for every size / data width / granularity / init image (recording stubs)
+    from ..pyvc.driver import discharge_all
+    from ..pyvc.engine import Unsupported
+    from ..common import BASE_ASSUMPTIONS_L1
+    try:
+        from contracts import sram_l1
+        fv = sram_l1.verify_sram_elaborate()
+        run.functions["amaranth_soc.wishbone.sram.WishboneSRAM.elaborate [statements issued, every geometry]"] = f"proved ({fv.paths} paths, {len(fv.obs)} obligations)"
+        run.require("wishbone.sram.WishboneSRAM.elaborate::read-address-is-the-bus-address", "wishbone.sram.WishboneSRAM.elaborate::nothing-else",
+                    "wishbone.sram.WishboneSRAM.elaborate::write-enable-is-select-gated-by-we")
+        run.assumptions += BASE_ASSUMPTIONS_L1 + [
+            "WishboneSRAM.elaborate contract: Amaranth objects are recording stubs (which statements are issued, under which If/Elif, on which whole "
+            "signals); memory-port and If/Elif semantics are Amaranth's (assumed; checked per configuration by the hdlvc clauses)"]
+        discharge_all(run, fv.obs, timeout_ms=10000)
+    except Unsupported as e:
+        run.functions["amaranth_soc.wishbone.sram.WishboneSRAM.elaborate [statements issued]"] = f"unsupported: {e} (the per-configuration clauses decide)"
+        run.bounded_notes.append(f"WishboneSRAM.elaborate: outside the pyvc subset on this tree ({e}); per-configuration clauses decide")
     return run.finish(
         explanation="WishboneSRAM.elaborate contract: ack next-state function, memory next-state function (z3 array; the "
                     "netlist's own memory is the store), read data at the acknowledge, init image. From an arbitrary state, "
